@@ -49,6 +49,7 @@ CONSTS = {
     ('Point', 'NONE'): ('point_NONE', ('Point', Opt('?'))),
     ('CollapsibleMarginSet', 'ZERO'): ('margin_set_ZERO', MSET),
     ('LayoutOutput', 'HIDDEN'): ('output_HIDDEN', OUT),
+    ('Point', 'ZERO'): ('point_ZERO', ('Point', F)),
 }
 # accessor of `style: &impl CoreStyle` -> (projection of Model/Leaf.v:Style, type)
 STYLE = {
@@ -65,6 +66,9 @@ OUTPUT_FIELDS = [('size', ('Size', F)), ('content_size', ('Size', F)), ('first_b
                  ('bottom_margin', MSET), ('margins_can_collapse_through', B)]
 MM = ('maybe_min', 'maybe_max', 'maybe_add', 'maybe_sub')
 CALC = ('un', '&', ('path', ['resolve_calc_value']))
+CALC2 = ('closure', [('pident', 'val'), ('pident', 'basis')], ('mcall', ('path', ['tree']), 'calc', [('path', ['val']), ('path', ['basis'])]))
+LAYOUT_FIELDS = [('order', 'U8'), ('location', ('Point', F)), ('size', ('Size', F)), ('content_size', ('Size', F)),
+                 ('scrollbar_size', ('Size', F)), ('border', ('Rect', F)), ('padding', ('Rect', F)), ('margin', ('Rect', F))]
 
 
 def lname(n):
@@ -91,13 +95,31 @@ def has_return(x):
     return False
 
 
+def render_log(log):
+    """log: [('item', call) | ('list', calls of a callee)] in program order -> Coq list term"""
+    parts, items = [], []
+    for k, x in log:
+        if k == 'item':
+            items.append(x)
+        else:
+            if items:
+                parts.append('[%s]' % '; '.join(items))
+                items = []
+            parts.append(x)
+    if items or not parts:
+        parts.append('[%s]' % '; '.join(items))
+    return parts[0] if len(parts) == 1 else '(%s)' % ' ++ '.join(parts)
+
+
 class LeafTr(Tr):
-    measure = None      # (rust name of the measure function, coq name)
+    measure = None      # compute_leaf_layout: (rust name of the measure function, coq name)
+    child = None        # compute_root_layout: (parameter names, LayoutInput literal) of LayoutPartialTreeExt::perform_child_layout
 
     def sub(self, extra):
         t = LeafTr(self.env, self.fns)
         t.env.update(extra)
         t.measure = self.measure
+        t.child = self.child
         return t
 
     def enum_ctor(self, segs):
@@ -151,7 +173,33 @@ class LeafTr(Tr):
             for p, g, ex, _ in a[2]:
                 if ex[0] == 'macro':
                     raise Refuse('macro %s! in a match arm (only allowed in the argument of the measure function)' % ex[1])
+            if any(g is not None for _, g, _, _ in a[2]):
+                return self.guarded_match(a)
         return Tr.e(self, a)
+
+    def guarded_match(self, a):
+        """`match s { p if g => e, _ => d }`: a guarded arm is only accepted when everything after it is one final wildcard arm
+        (the value a failing guard falls through to)."""
+        arms = a[2]
+        if len(arms) < 2 or arms[-1][0] != ('pwild',) or arms[-1][1] is not None:
+            raise Refuse('match guard without a final wildcard arm')
+        s, st = self.e(a[1])
+        d, rt = self.e(arms[-1][2])
+        out = []
+        for i, (p, g, ex, _) in enumerate(arms[:-1]):
+            if g is not None and i != len(arms) - 2:
+                raise Refuse('match guard in front of a non-wildcard arm')
+            ps, binds = self.pat(p, st)
+            x, xt = self.sub(binds).e(ex)
+            rt = join(rt, xt)
+            if g is not None:
+                c, ct = self.sub(binds).e(g)
+                if ct != B:
+                    raise Refuse('match guard of type %r' % (ct,))
+                x = '(if %s then %s else %s)' % (c, x, d)
+            out.append('| %s => %s' % (ps, x))
+        out.append('| _ => %s' % d)
+        return '(match %s with\n      %s\n      end)' % (s, '\n      '.join(out)), rt
 
     def proj(self, r, t, f):
         if isinstance(t, tuple) and t[0] in PROJ and f in PROJ[t[0]]:
@@ -208,8 +256,27 @@ class LeafTr(Tr):
                     raise Refuse('LayoutOutput.%s of type %r' % (f, t))
                 parts.append(r)
             return '(mkOutput %s)' % ' '.join(parts), OUT
-        if len(segs) == 1 and segs[0] in ('Size', 'Rect', 'Point') and base is None:
-            return Tr.struct(self, a)
+        if segs == ['Layout'] and base is None:
+            given = dict(fs)
+            if sorted(given) != sorted(f for f, _ in LAYOUT_FIELDS) or len(fs) != len(LAYOUT_FIELDS):
+                raise Refuse('Layout literal with fields %r' % [f for f, _ in fs])
+            parts = []
+            for f, want in LAYOUT_FIELDS:
+                r, t = self.e(given[f])
+                if t != want:
+                    raise Refuse('Layout.%s of type %r' % (f, t))
+                parts.append(r)
+            return '(mkLayout %s)' % ' '.join(parts), 'Layout'
+        if len(segs) == 1 and segs[0] in PROJ and base is None:
+            fields = list(PROJ[segs[0]])
+            given = dict(fs)
+            if sorted(given) != sorted(fields) or len(fs) != len(fields):
+                raise Refuse('%s literal with fields %r' % (segs[0], [f for f, _ in fs]))
+            parts = [self.e(given[f]) for f in fields]
+            t = parts[0][1]
+            for _, t2 in parts[1:]:
+                t = join(t, t2)
+            return '(mk%s %s)' % (segs[0], ' '.join(p for p, _ in parts)), (segs[0], t)
         raise Refuse('struct literal %s' % '::'.join(segs))
 
     def closure(self, c, ptypes):
@@ -232,8 +299,8 @@ class LeafTr(Tr):
         return '(fun %s => %s)' % (' '.join(names), body), bt
 
     def calc_arg(self, args):
-        if len(args) != 2 or args[1] != CALC:
-            raise Refuse('expected (context, &resolve_calc_value)')
+        if len(args) != 2 or args[1] not in (CALC, CALC2):
+            raise Refuse('expected (context, &resolve_calc_value) or (context, |val, basis| tree.calc(val, basis))')
         return self.e(args[0])
 
     def mcall(self, a):
@@ -295,6 +362,13 @@ class LeafTr(Tr):
             if nm == 'map' and n == 1:
                 f, ft = self.closure(args[0], [it])
                 return '(%s_map %s %s)' % (low, f, r), (tag, ft)
+            if tag == 'Size' and nm == 'zip_map' and n == 2:
+                x, xt = self.e(args[0])
+                if isinstance(xt, tuple) and xt[0] == 'Size':
+                    f, ft = self.closure(args[1], [it, xt[1]])
+                    if ft == Opt('?'):
+                        raise Refuse('zip_map closure of undetermined type')
+                    return '(size_zip_map %s %s %s)' % (f, r, x), ('Size', ft)
             if tag == 'Point' and nm == 'transpose' and n == 0:
                 return '(point_transpose %s)' % r, t
             if tag == 'Rect':
@@ -368,8 +442,12 @@ class LeafTr(Tr):
                     lines.append('let %s := (%s inputs) in\n    ' % (lname(f), f))
                     self.env[f] = (lname(f), INPUT_FIELDS[f])
                 return
+            if p == ('pident', 'style') and rhs == ('mcall', ('path', ['tree']), 'get_core_container_style', [('path', ['root'])]):
+                return          # the style of the node is the parameter `style`
             r, t = self.e(rhs)
             if p[0] == 'pident':
+                if t == ('Size', Opt('?')):
+                    r, t = '(%s : Size (option T))' % r, ('Size', OF)
                 lines.append('let %s := %s in\n    ' % (lname(p[1]), r))
                 self.env[p[1]] = (lname(p[1]), t)
                 return
@@ -380,6 +458,45 @@ class LeafTr(Tr):
         if st[0] == 'expr':
             ex = st[1]
             if ex[0] == 'macro' and ex[1] == 'debug_log':
+                return
+            if ex == ('call', ('path', ['drop']), [('path', ['style'])]):
+                return
+            if ex[0] == 'assign' and ex[1] == '=' and ex[2][0] == 'path' and len(ex[2][1]) == 1:
+                nm = ex[2][1][0]
+                if nm not in self.env:
+                    raise Refuse('assignment to unknown %s' % nm)
+                r, t = self.e(ex[3])
+                if join(t, self.env[nm][1]) != self.env[nm][1]:
+                    raise Refuse('assignment of %r to %s : %r' % (t, nm, self.env[nm][1]))
+                lines.append('let %s := %s in\n    ' % (lname(nm), r))
+                return
+            if ex[0] in ('block', 'if') and not has_return(ex):
+                # statement-position block / `if` without else: rebinding of the outer variables assigned inside
+                vs = []
+                self.assigned_in(ex, vs)
+                if not vs:
+                    raise Refuse('statement-position %s without assignments' % ex[0])
+                for v in vs:
+                    if v not in self.env:
+                        raise Refuse('assignment to unknown %s' % v)
+                tup = '(%s)' % ', '.join(lname(v) for v in vs) if len(vs) > 1 else lname(vs[0])
+
+                def run(tr, blk):
+                    ls = []
+                    inner = tr.lets(blk[1], ls)
+                    if blk[2] is not None:
+                        inner.stmt(('expr', blk[2], []), ls)
+                    return '(' + ''.join(ls) + tup + ')'
+                if ex[0] == 'block':
+                    term = run(self, ex)
+                else:
+                    if ex[3] is not None or ex[2][0] != 'block':
+                        raise Refuse('statement-position if with else')
+                    c, ct = self.e(ex[1])
+                    if ct != B:
+                        raise Refuse('if condition of type %r' % (ct,))
+                    term = '(if %s then %s else %s)' % (c, run(self, ex[2]), tup)
+                lines.append("let %s%s := %s in\n    " % ("'" if len(vs) > 1 else '', tup, term))
                 return
             if ex[0] == 'assign' and ex[1] in ('+=', '-=') and ex[2][0] == 'field' and ex[2][1][0] == 'path' and len(ex[2][1][1]) == 1:
                 nm, side = ex[2][1][1][0], ex[2][2]
@@ -396,6 +513,22 @@ class LeafTr(Tr):
                 self.env[nm] = (lname(nm), ('Rect', F))
                 return
         raise Refuse('statement %r' % (st[1][0] if st[0] == 'expr' else st[0],))
+
+    def assigned_in(self, ex, out):
+        """Outer variables assigned (`x = e`) in a statement-position block / if, in order of first assignment."""
+        if ex[0] == 'assign':
+            if ex[2][0] == 'path' and len(ex[2][1]) == 1 and ex[2][1][0] not in out:
+                out.append(ex[2][1][0])
+        elif ex[0] == 'block':
+            for st in ex[1]:
+                if st[0] == 'expr':
+                    self.assigned_in(st[1], out)
+            if ex[2] is not None:
+                self.assigned_in(ex[2], out)
+        elif ex[0] == 'if':
+            self.assigned_in(ex[2], out)
+            if ex[3] is not None:
+                self.assigned_in(ex[3], out)
 
     # ---------------------------------------------------------------- the function body: early returns + measure log
     def measure_arg(self, ex):
@@ -426,7 +559,7 @@ class LeafTr(Tr):
             r, t = self.e(ex)
             if t != OUT:
                 raise Refuse('the function returns %r' % (t,))
-            return '(Some (%s, [%s]))' % (r, '; '.join(log))
+            return '(Some (%s, %s))' % (r, render_log(log))
         if not stmts:
             if tail is not None:
                 return result(tail)
@@ -434,6 +567,46 @@ class LeafTr(Tr):
                 raise Refuse('the function ends without a value')
             return fall
         st, rest = stmts[0], stmts[1:]
+        if self.child is not None and st[0] == 'expr' and st[1][0] == 'mcall' and st[1][1] == ('path', ['tree']) and st[1][2] == 'set_unrounded_layout':
+            # compute_root_layout: the function's result is the Layout it stores for the root
+            args = st[1][3]
+            if rest or tail is not None or fall is not None or len(args) != 2 or args[0] != ('path', ['root']) or args[1][:2] != ('un', '&'):
+                raise Refuse('set_unrounded_layout(root, &Layout {..}) must be the last statement')
+            r, t = self.e(args[1][2])
+            if t != 'Layout':
+                raise Refuse('set_unrounded_layout of %r' % (t,))
+            return '(Some (%s, %s))' % (r, render_log(log))
+        if self.child is not None and st[0] == 'let' and st[2] is not None and st[2][0] == 'mcall' and st[2][1] == ('path', ['tree']) \
+                and st[2][2] == 'perform_child_layout':
+            if fall is not None or st[1][0] != 'pident':
+                raise Refuse('perform_child_layout inside a conditional block')
+            pnames, lit = self.child
+            args = st[2][3]
+            if len(args) != len(pnames) or args[0] != ('path', ['root']):
+                raise Refuse('perform_child_layout arguments')
+            env = {}
+            for pn, ar in zip(pnames[1:], args[1:]):
+                if pn in INPUT_FIELDS:
+                    env[pn] = self.e(ar)
+                    if join(env[pn][1], INPUT_FIELDS[pn]) != INPUT_FIELDS[pn]:
+                        raise Refuse('perform_child_layout %s of type %r' % (pn, env[pn][1]))
+            inp = LeafTr(env)
+            given = dict(lit[2])
+            parts = []
+            for f in ('run_mode', 'sizing_mode', 'known_dimensions', 'parent_size', 'available_space'):
+                r, t = inp.e(given[f])
+                if join(t, INPUT_FIELDS[f]) != INPUT_FIELDS[f]:
+                    raise Refuse('LayoutInput.%s of type %r' % (f, t))
+                parts.append(r)
+            self.fresh += 1
+            cl = 'child_calls%d' % self.fresh
+            o = lname(st[1][1])
+            cur = self.sub({st[1][1] + '.size': ('(out_size %s)' % o, ('Size', F)),
+                            st[1][1] + '.content_size': ('(out_content_size %s)' % o, ('Size', F))})
+            cur.fresh = self.fresh
+            body = cur.seq(rest, tail, log + [('list', cl)], fall)
+            return ('(match perform_child_layout (mkInput %s) with\n    | None => None\n    | Some (%s, %s) =>\n    %s\n    end)'
+                    % (' '.join(parts), o, cl, body))
         if st[0] == 'expr' and st[1][0] == 'return':
             if st[1][1] is None:
                 raise Refuse('return without a value')
@@ -461,7 +634,7 @@ class LeafTr(Tr):
             inner.fresh = self.fresh
             body = inner.seq(blk[1], None, log, kn)
             return '(let %s := (%s) in\n    match %s with\n    | %s => %s\n    | _ => %s\n    end)' % (kn, k, s, ps, body, kn)
-        if st[0] == 'let' and st[2] is not None and st[2][0] == 'call' and st[2][1] == ('path', [self.measure[0]]):
+        if self.measure is not None and st[0] == 'let' and st[2] is not None and st[2][0] == 'call' and st[2][1] == ('path', [self.measure[0]]):
             if fall is not None:
                 raise Refuse('measure call inside a conditional block')
             if st[1][0] != 'pident' or len(st[2][2]) != 2:
@@ -474,7 +647,7 @@ class LeafTr(Tr):
             kd, av = 'm_known%d' % self.fresh, 'm_avail%d' % self.fresh
             cur = self.sub({st[1][1]: (lname(st[1][1]), ('Size', F))})
             cur.fresh = self.fresh
-            body = cur.seq(rest, tail, log + ['(%s, %s)' % (kd, av)], fall)
+            body = cur.seq(rest, tail, log + [('item', '(%s, %s)' % (kd, av))], fall)
             return ('(match %s with\n    | None => None\n    | Some %s =>\n    let %s := %s in\n    let %s := %s %s %s in\n    %s\n    end)'
                     % (a1, kd, av, a2, lname(st[1][1]), self.measure[1], kd, av, body))
         if has_return(st):
@@ -531,4 +704,44 @@ def generate(repo):
     return '\n'.join(out) + '\n', fps
 
 
-TARGETS = {'LeafGen.v': generate}
+def generate_root(repo):
+    fps = {}
+    check_enums(repo, fps)
+    # LayoutPartialTreeExt::perform_child_layout: self.compute_child_layout(node_id, LayoutInput { .. })
+    toks = tokenize(read(repo, 'src/tree/traits.rs'))
+    params, body, blk = fn_block(toks, 'perform_child_layout')
+    fps['traits::perform_child_layout'] = norm_tokens(body)
+    pnames = param_names(params)
+    t = blk[2]
+    if blk[1] or t is None or t[0] != 'mcall' or t[1] != ('path', ['self']) or t[2] != 'compute_child_layout' or len(t[3]) != 2 \
+            or t[3][0] != ('path', [pnames[1]]) or t[3][1][0] != 'struct' or t[3][1][1] != ['LayoutInput'] or t[3][1][3] is not None:
+        raise Refuse('perform_child_layout is no longer self.compute_child_layout(node_id, LayoutInput { .. })')
+    if pnames[0] != 'self' or not set(INPUT_FIELDS) <= set(f for f, _ in t[3][1][2]):
+        raise Refuse('perform_child_layout: parameters / LayoutInput fields')
+    toks = tokenize(read(repo, 'src/compute/mod.rs'))
+    params, body, blk = fn_block(toks, 'compute_root_layout')
+    fps['mod::compute_root_layout'] = norm_tokens(body)
+    if param_names(params) != ['tree', 'root', 'available_space']:
+        raise Refuse('compute_root_layout parameters %r' % param_names(params))
+    for st in blk[1]:
+        for at in st[3] if len(st) > 3 else []:
+            if at.replace(' ', '') != 'cfg(feature="block_layout")':
+                raise Refuse('attribute %s on a statement' % at)
+    tr = LeafTr({'available_space': ('available_space', ('Size', AV))})
+    tr.child = (pnames[1:], t[3][1])
+    term = tr.seq(list(blk[1]), blk[2], [], None)
+    out = ['(* GENERATED on every run by translator/gen_leaf.py from src/compute/mod.rs (whole body of compute_root_layout; the child layout',
+           '   `tree.perform_child_layout(root, ..)` is the parameter, applied to the LayoutInput that src/tree/traits.rs builds) -- do not edit. *)',
+           'From Coq Require Import List Bool NArith.',
+           'From TV Require Import Model.Common Model.Leaf Model.Root.',
+           'Import ListNotations.',
+           'Section RootGen.', 'Context {T : Type} `{Num T}.', '',
+           'Definition gen_compute_root_layout (style : Style T)',
+           '    (perform_child_layout : LayoutInput T -> option (LayoutOutput T * list (MeasureCall T)))',
+           '    (available_space : Size (AvailableSpace T)) : option (Layout T * list (MeasureCall T)) :=',
+           '    ' + term + '.', '',
+           'End RootGen.']
+    return '\n'.join(out) + '\n', fps
+
+
+TARGETS = {'LeafGen.v': generate, 'RootGen.v': generate_root}
